@@ -34,7 +34,12 @@ pub fn gen_payload(rng: &mut Rng, max: usize) -> Vec<u8> {
         3 => rng.usize_below(max + 1),
         _ => rng.usize_below(max.min(4096) + 1),
     };
-    match rng.below(5) {
+    match rng.below(6) {
+        5 => {
+            // a whole LDM record (size prefix + bzip2 stream) as payload: the decompressed record
+            // then itself has 'BZ' at bytes 4..6
+            enc::ldm_record(&enc::bzip2_compress(&rng.bytes(n.min(1500)), 1), rng.chance(1, 2))
+        }
         0 => rng.bytes(n),                                  // incompressible
         1 => vec![rng.u8(); n],                             // highly compressible
         2 => {
@@ -335,6 +340,25 @@ pub fn check_container(obs: &mut Obs, spec: &ContainerSpec, case_index: u64) {
                         } else {
                             obs.count("bzip2_round_trips_exact", 1);
                             obs.max("payload_bytes", payload.len() as u64);
+                            // the record that comes out is a record like any other: whether it is
+                            // compressed is a fact about *its* bytes 4..6
+                            let inner_bz = payload.len() >= 6 && &payload[4..6] == b"BZ";
+                            match mon::catch(|| (d.compressed(), d.messages().is_err())) {
+                                Ok((c, msgs_err)) => {
+                                    if c != inner_bz {
+                                        obs.violation(
+                                            "compressed() of a decompressed record disagrees with the BZ magic after its prefix",
+                                            format!("record {}: payload bytes 4..6 {:?}, compressed() {}", i, payload.get(4..6), c),
+                                            replay.clone(),
+                                        );
+                                    } else if inner_bz && !msgs_err {
+                                        obs.violation("messages() on a compressed record is not an error", format!("record {} (decompressed, itself compressed)", i), replay.clone());
+                                    } else if inner_bz {
+                                        obs.count("decompressed_records_that_are_themselves_compressed", 1);
+                                    }
+                                }
+                                Err(p) => obs.violation(format!("decompressed record {}", p.signature()), p.message, replay.clone()),
+                            }
                         }
                     }
                 }
